@@ -196,7 +196,7 @@ func (g *gram) invoke(fn *ssa.Function, args []gval, bind []gval, entry *gconf, 
 				if gramTrace != "" && strings.Contains(funcName(fn), gramTrace) {
 					for _, c := range cs {
 						if v, ok := in.(ssa.Value); ok {
-							fmt.Printf("GRAMTRACE %s b%d %s = %s   heap{%s}\n", funcName(fn), it.b.Index, v.Name(), c.env[v].String(), heapKey(c.heap))
+							fmt.Printf("GRAMTRACE %s b%d %s = %s key=%q  heap{%s} facts%v\n", funcName(fn), it.b.Index, v.Name(), c.env[v].String(), c.env[v].Key, heapKey(c.heap), c.facts)
 						} else {
 							fmt.Printf("GRAMTRACE %s b%d %s   heap{%s}\n", funcName(fn), it.b.Index, in.String(), heapKey(c.heap))
 						}
@@ -610,6 +610,66 @@ func (g *gram) binop(c *gconf, x *ssa.BinOp) gval {
 				}
 				return gval{K: gBool}
 			}
+			if d.Key != "" && d.Cls != clsConst {
+				// length classes: 0, 1, 2 or more
+				cur := uint8(7)
+				if f, ok := c.facts[d.Key]; ok {
+					if f.lenMask != 0 {
+						cur = f.lenMask
+					}
+					switch f.empty {
+					case triYes:
+						cur &= 1
+					case triNo:
+						cur &= 6
+					}
+				}
+				switch d.Empty {
+				case triYes:
+					cur &= 1
+				case triNo:
+					cur &= 6
+				}
+				var tm, fm uint8
+				for n := int64(0); n < 2; n++ {
+					if cmpInt(op, n, k) {
+						tm |= 1 << uint(n)
+					} else {
+						fm |= 1 << uint(n)
+					}
+				}
+				for _, n := range []int64{2, k - 1, k, k + 1, 1 << 40} {
+					if n < 2 {
+						continue
+					}
+					if cmpInt(op, n, k) {
+						tm |= 4
+					} else {
+						fm |= 4
+					}
+				}
+				tm &= cur
+				fm &= cur
+				switch {
+				case cur == 0:
+					// contradictory facts: leave the comparison open
+				case tm == 0:
+					return gval{K: gBool, Known: true, B: false}
+				case fm == 0:
+					return gval{K: gBool, Known: true, B: true}
+				default:
+					mk := func(m uint8) gfact {
+						f := gfact{lenMask: m}
+						if m == 1 {
+							f.empty = triYes
+						} else if m&1 == 0 {
+							f.empty = triNo
+						}
+						return f
+					}
+					return gval{K: gBool, OnTrue: []grefine{{d.Key, mk(tm)}}, OnFalse: []grefine{{d.Key, mk(fm)}}}
+				}
+			}
 			// emptiness tests: which truth value says "empty"?
 			emptyTruth, isEmptyTest := false, false
 			switch {
@@ -787,6 +847,11 @@ func (g *gram) builtin(fr *gframe, c *gconf, x *ssa.Call, b *ssa.Builtin, args [
 			}
 			return one(gval{K: gInt, LenOf: &a}, c)
 		}
+		if len(args) == 1 && args[0].K == gUnknown && args[0].Key != "" {
+			// a slice the analysis only knows by name: its length class (0, 1, 2 or more) is tracked as a fact
+			a := args[0]
+			return one(gval{K: gInt, LenOf: &a}, c)
+		}
 		return one(gval{K: gInt}, c)
 	case "append":
 		if len(args) == 2 && isByteSlice(x.Type()) {
@@ -877,6 +942,29 @@ func (g *gram) callFn(fr *gframe, c *gconf, site *ssa.Call, callee *ssa.Function
 	if callee.Blocks == nil || !(g.w.InPkg(callee) || (callee.Origin() != nil && g.w.InPkg(callee.Origin())) || callee.Synthetic != "") {
 		return g.external(fr, c, site, callee, args, pos, fn)
 	}
+	if deref, ok := lenGetterFn(callee); ok && len(args) == 1 {
+		a := args[0]
+		if deref {
+			if a.K == gPtr && a.Cell != nil {
+				if cur, ok := c.heap[a.Cell]; ok {
+					a = cur
+				} else {
+					a = gval{}
+				}
+			} else {
+				a = gval{}
+			}
+		}
+		a = g.withFacts(c, a)
+		if a.K == gBytes && a.Cls == clsConst {
+			return one(gval{K: gInt, Known: true, I: int64(len(a.S))}, c)
+		}
+		if (a.K == gBytes || a.K == gUnknown) && a.Key != "" {
+			return one(gval{K: gInt, LenOf: &a}, c)
+		}
+		return one(gval{K: gInt}, c)
+	}
+	g.checkTermKind(c, args, pos, fn)
 	relevant := returnsBytes(callee)
 	for _, a := range args {
 		if interesting(a, c.heap, 0) {
@@ -1232,6 +1320,9 @@ func runGram(w *World) *gramReport {
 			if strings.Contains(e.msg, "undecided") {
 				cls = "undecided"
 			}
+			if strings.Contains(e.msg, "language-map term") {
+				cls = "term-kind"
+			}
 			rr.byClass[cls] = append(rr.byClass[cls], fmt.Sprintf("%s (in %s at %s; reached via %s; last writes: %s)", e.msg, e.fn, e.pos, e.chain, strings.Join(tail(e.trace, 5), " | ")))
 			if rr.ppos == w.FuncPos(root) {
 				rr.ppos = e.pos
@@ -1293,6 +1384,63 @@ func checkWrittenThenLost(w *World, c *Check, rule string) {
 			c.bad(rule, key, rr.lpos, strings.Join(uniq(rr.lost), " ;; "))
 		} else {
 			c.ok(rule, key, w.FuncPos(rr.fn), "no path returns nothing after a property was written")
+		}
+	}
+}
+
+// lenGetterFn: every return of f (one parameter, one integer result) is the constant 0 or (a conversion of) the length
+// of the parameter (deref: of what the pointer parameter points to).
+func lenGetterFn(f *ssa.Function) (deref bool, ok bool) {
+	if f == nil || f.Blocks == nil || len(f.Params) != 1 || f.Signature.Results().Len() != 1 || len(f.Blocks) > 4 {
+		return false, false
+	}
+	if b, isB := types.Unalias(f.Signature.Results().At(0).Type()).Underlying().(*types.Basic); !isB || b.Info()&types.IsInteger == 0 {
+		return false, false
+	}
+	_, deref = types.Unalias(f.Params[0].Type()).Underlying().(*types.Pointer)
+	n := 0
+	for _, rb := range returnBlocks(f) {
+		ret := rb.Instrs[len(rb.Instrs)-1].(*ssa.Return)
+		v := ret.Results[0]
+		if k, isC := v.(*ssa.Const); isC && k.Value != nil && k.Int64() == 0 {
+			continue
+		}
+		if cv, isCv := v.(*ssa.Convert); isCv {
+			v = cv.X
+		}
+		inner, isLen := lenOperand(v)
+		if !isLen {
+			return false, false
+		}
+		if deref {
+			ld, isLd := inner.(*ssa.UnOp)
+			if !isLd || ld.Op != token.MUL || ld.X != ssa.Value(f.Params[0]) {
+				return false, false
+			}
+		} else if inner != ssa.Value(f.Params[0]) {
+			return false, false
+		}
+		n++
+	}
+	return deref, n > 0
+}
+
+// checkTermKind: a call hands over a member name ending in "Map" (the JSON-LD language-map form of a natural-language
+// property: nameMap, contentMap, …) together with a complete value that is a JSON string. The Map term announces an
+// object keyed by language; a consumer that sees "nameMap":"hello" drops or misreads the text.
+func (g *gram) checkTermKind(c *gconf, args []gval, pos, fn string) {
+	name := ""
+	for _, a := range args {
+		if a.K == gBytes && a.Cls == clsConst && len(a.S) > 3 && strings.HasSuffix(a.S, "Map") {
+			name = a.S
+		}
+	}
+	if name == "" {
+		return
+	}
+	for _, a := range args {
+		if a.K == gBytes && ((a.Cls == clsSnap && a.Stack.dropLit() == "Ds") || (a.Cls == clsValue && a.IsStr)) {
+			g.fail(pos, fn, fmt.Sprintf("the language-map term %q is written with a plain JSON string as its value (the Map form must carry an object keyed by language)", name), c)
 		}
 	}
 }
